@@ -27,7 +27,7 @@ Inductive levent :=
 | LPut (t : tid) (d : desc)   (* Push: manifest PUT answered 201 *)
 | LIdx (e : event)            (* an event of the index update protocol *)
 | LDel (t : tid)              (* Delete: manifest DELETE answered 202 *)
-| LEnd (t : tid).             (* the operation is over (a push; or a delete that failed) *)
+| LEnd (t : tid).             (* the operation is over: a push; a delete whose index update or manifest DELETE failed *)
 
 Definition ent_tid (e : tid * N * bool) : tid := fst (fst e).
 Definition ent_key (e : tid * N * bool) : N := snd (fst e).
@@ -88,7 +88,9 @@ Definition lstep (sg : bool) (m : lstate) (e : levent) : option lstate :=
             match r with
             | RErr => Some (mkL (l_s m) (l_live m) (drop_tid t (l_inflight m)) (ckey c :: l_taint m))
             | _ => if is_add c then Some (mkL (l_s m) (l_live m) (drop_tid t (l_inflight m)) (l_taint m))
-                   else None   (* a successful delete ends with LDel *)
+                   else (* the delete's manifest DELETE failed: the index no longer lists the
+                           manifest, the manifest is still there, the caller got an error *)
+                     Some (mkL (l_s m) (l_live m) (drop_tid t (l_inflight m)) (ckey c :: l_taint m))
             end
           else None
       | _ => None
@@ -107,3 +109,65 @@ Definition linit (r0 : option index) (st0 : list index) (live0 : list N) : lstat
 (* the listing claim for key k: listed iff live *)
 Definition consistent (m : lstate) (k : N) : Prop :=
   memb (reg (l_s m)) k = negb (k =? 0) && live_mem k (l_live m).
+
+(* ---------- replay of a visible schedule with the manifest exchanges ----------
+   VG t: the operation's first manifest exchange was answered (push: PUT 201, then it calls
+   updateReferrersIndex; delete: the fetch succeeded, then it calls updateReferrersIndex);
+   VM t: the delete's manifest DELETE was answered 202. *)
+Inductive lvis := LV (v : vis) | VM (t : tid) | VN (t : tid).   (* VN: the delete's manifest DELETE failed *)
+
+Fixpoint lsettle_pass (sg : bool) (n : nat) (m : lstate) : lstate * bool :=
+  match n with
+  | O => (m, false)
+  | S k =>
+      let (m1, ch) := lsettle_pass sg k m in
+      let try e := match lstep sg m1 e with Some m2 => (m2, true) | None => (m1, ch) end in
+      match pcs (l_s m1) k with
+      | Completing _ => try (LIdx (EComplete k))
+      | Ret _ => try (LIdx (EDone k))
+      | Done r =>
+          (* a push is over when updateReferrersIndex returns; so is a delete whose index update failed *)
+          if has_tid k (l_inflight m1) && (is_add (arg (l_s m1) k) || match r with RErr => true | _ => false end)
+          then try (LEnd k) else (m1, ch)
+      | _ => (m1, ch)
+      end
+  end.
+
+Fixpoint lsettle (sg : bool) (n fuel : nat) (m : lstate) : lstate :=
+  match fuel with
+  | O => m
+  | S f => let (m1, ch) := lsettle_pass sg n m in if ch then lsettle sg n f m1 else m1
+  end.
+
+Definition lvis_step (sg : bool) (changes : list change) (m : lstate) (v : lvis) : option lstate :=
+  let n := length changes in
+  let r :=
+    match v with
+    | LV (VG t) =>
+        let c := nth t changes (Add empty_desc) in
+        match c with
+        | Add d => lrun sg m [LPut t d; LIdx (EGet t c); LIdx (EAssign t)]
+        | Remove _ => lrun sg m [LIdx (EGet t c); LIdx (EAssign t)]
+        end
+    | LV (VP t f) => lrun sg m [LIdx (ERecvMain t); LIdx (EPrepare t f); LIdx (ECommit t)]
+    | LV (VU t f) => lstep sg m (LIdx (EPut t f))
+    | LV (VD t f) => lstep sg m (LIdx (EDel t f))
+    | LV VX => lstep sg m (LIdx EExtDrop)
+    | VM t => lstep sg m (LDel t)
+    | VN t => lstep sg m (LEnd t)
+    end in
+  match r with Some m1 => Some (lsettle sg n (3 * n + 3) m1) | None => None end.
+
+Fixpoint lrun_vis (sg : bool) (changes : list change) (m : lstate) (vs : list lvis) : option lstate :=
+  match vs with
+  | [] => Some m
+  | v :: vs' => match lvis_step sg changes m v with Some m' => lrun_vis sg changes m' vs' | None => None end
+  end.
+
+(* live keys, keys some operation is still working on, tainted keys *)
+Definition lvis_summary (sg : bool) (r0 : option index) (live0 : list N) (changes : list change) (vs : list lvis)
+  : option (list N * list N * list N) :=
+  match lrun_vis sg changes (linit r0 (match r0 with Some x => [x] | None => [] end) live0) vs with
+  | Some m => Some (l_live m, map ent_key (l_inflight m), l_taint m)
+  | None => None
+  end.
